@@ -6,10 +6,7 @@
    - [trav_exact]: the exhaustive branch and bound (_traverse_exhaustive,
      _branch_exhaustive) finds every minimum cover of its node whose total
      cost does not exceed the upper bound; the upper bound afterwards is
-     unchanged or the total cost of an actual cover of the node (the
-     unconditional assignment bab.upper_bound = branch_lb at a leaf only
-     weakens pruning, unlike in cover._traverse, finding F16, because
-     _branch_exhaustive compares the sizes of the returned covers);
+     unchanged or the total cost of an actual cover of the node;
    - [wrap_exact]: lifting through one reduction step (CoverEnumStep.v) and
      the two enumerations (CoverEnumLemmas.v);
    - [ccfr_exact], [enum_xy_exact], [enum_exact]. *)
@@ -95,7 +92,8 @@ Definition trav (rec : list box -> list box -> nat -> nat -> res (family * nat))
   let core_lb := indep_size pick (S (length x)) x y in
   let blb := (npc + core_lb)%nat in
   match x with
-  | [] => check (is_nil y) (check (Nat.eqb core_lb 0) (ok ([[]], blb)))
+  | [] => check (is_nil y) (check (Nat.eqb core_lb 0)
+            (if (ub <? blb)%nat then ok ([], ub) else ok ([[]], blb)))
   | _ =>
       if (ub <? blb)%nat then ok ([], ub)
       else
@@ -151,14 +149,21 @@ Proof.
   set (core_lb := indep_size pick (S (length x)) x y) in *.
   destruct x as [|x0 x'].
   - (* leaf *)
-    apply check_inl in H. destruct H as [_ H]. apply check_inl in H. destruct H as [_ H].
-    inversion H; subst F u. split; [|split].
-    + intros c [<-|[]]. constructor.
-    + right. exists []. split; [apply incl_nil_l|]. split; [intros z []|]. cbn. lia.
-    + intros C [HI [HC HM]] _.
-      assert (L : (length C <= length (@nil box))%nat).
-      { apply HM; [apply incl_nil_l | intros z []]. }
-      destruct C; [|cbn in L; lia]. apply has_in. left. reflexivity.
+    apply check_inl in H. destruct H as [_ H]. apply check_inl in H. destruct H as [Hlb0 H].
+    apply Nat.eqb_eq in Hlb0.
+    destruct (ub <? npc + core_lb)%nat eqn:Eub.
+    + (* a leaf more expensive than the upper bound is dropped *)
+      apply Nat.ltb_lt in Eub. inversion H; subst F u. split; [|split].
+      * intros c [].
+      * left. reflexivity.
+      * intros C _ Hle. lia.
+    + inversion H; subst F u. split; [|split].
+      * intros c [<-|[]]. constructor.
+      * right. exists []. split; [apply incl_nil_l|]. split; [intros z []|]. cbn. lia.
+      * intros C [HI [HC HM]] _.
+        assert (L : (length C <= length (@nil box))%nat).
+        { apply HM; [apply incl_nil_l | intros z []]. }
+        destruct C; [|cbn in L; lia]. apply has_in. left. reflexivity.
   - remember (x0 :: x') as x eqn:Ex. clear Ex.
     destruct (ub <? npc + core_lb)%nat eqn:Eub.
     + (* prune *)
